@@ -2,3 +2,4 @@ pub mod c05;
 pub mod c06;
 pub mod c10;
 pub mod c16;
+pub mod c17;
